@@ -70,6 +70,9 @@ func IsCodeWrapper(md protoreflect.MessageDescriptor) bool {
 
 // ValidReferenceTypes lists the annotation on a Reference-typed field.
 func ValidReferenceTypes(fd protoreflect.FieldDescriptor) []string {
+	if fd == nil {
+		return nil
+	}
 	if !proto.HasExtension(fd.Options(), apb.E_ValidReferenceType) {
 		return nil
 	}
